@@ -33,6 +33,36 @@ theorem BoolV_ofFB (o : Option LinComb) : BoolV (ofFB o) := by cases o <;> simp 
 
 /-! ## the operand conditions that single out the recorded deviations -/
 
+/-- `f` on every pair that `zip` meets -/
+def zipAllB (f : Val → Val → Bool) : List Val → List Val → Bool
+  | t :: ts, g :: gs => f t g && zipAllB f ts gs
+  | _, _ => true
+
+/-- wherever `if_then_else` (walking down `fuel` levels) meets a list on the `truev` side and a list or
+tuple on the other, the two have the same length.  Lengths are public structure, not values: a
+mismatch is refused with the `ValueError` of the length check whatever the guard is (repaired finding
+C09-list-length-truncated), so it is an operand condition of the selection like a public condition
+that is not 0/1. -/
+def zipOk : Nat → Val → Val → Bool
+  | 0, _, _ => true
+  | n+1, .list ts, .list fs => ts.length == fs.length && zipAllB (zipOk n) ts fs
+  | n+1, .list ts, .tuple fs => ts.length == fs.length && zipAllB (zipOk n) ts fs
+  | _+1, _, _ => true
+
+/-- the same with the fuel `ifThenElse` starts from -/
+def selOk (t f : Val) : Bool := zipOk (t.depth + 1) t f
+
+theorem zipOk_list {n : Nat} {ts fs : List Val} (h : zipOk (n+1) (.list ts) (.list fs) = true) :
+    ts.length = fs.length ∧ zipAllB (zipOk n) ts fs = true := by
+  simpa [zipOk] using h
+theorem zipOk_tuple {n : Nat} {ts fs : List Val} (h : zipOk (n+1) (.list ts) (.tuple fs) = true) :
+    ts.length = fs.length ∧ zipAllB (zipOk n) ts fs = true := by
+  simpa [zipOk] using h
+/-- scalars on the `truev` side: nothing to compare -/
+theorem selOk_of_scalar {t : Val} (h : ∀ ts, t ≠ .list ts) (f : Val) : selOk t f = true := by
+  unfold selOk
+  cases t <;> first | rfl | exact absurd rfl (h _)
+
 /-- turning this value into a `LinCombBool` succeeds: a raw `LinComb` / `int` is 0 or 1 -/
 def Val.boolish : Val → Bool
   | .lc x => isBooleanValue x.value
